@@ -109,7 +109,7 @@ func VH_C08_Consume() {
 	if wm.PutInt(vhCtx, count) != nil {
 		vAssume(false)
 	}
-	texts := []string{"", "a", "ZKM", "A=1"}
+	texts := []string{"", "a", "ZKM", "A=1", "ZKMo", "ZK"}
 	for i := 0; i < nstr; i++ {
 		// case-split (concrete) strings: the three receivers then run concretely
 		s := texts[vChoice(names[i], len(texts))]
